@@ -5,6 +5,7 @@ import (
 	"flag"
 	"fmt"
 	"os"
+	"os/exec"
 	"path/filepath"
 	"sort"
 	"strconv"
@@ -294,6 +295,7 @@ func cmdCheck(args []string) {
 	tier := fl.String("tier", "", "quick or thorough")
 	level := fl.String("level", "proof", "evidence level to report")
 	extraJSON := fl.String("extra", "", "JSON file with additional coverage keys (bounded stand-ins) to merge")
+	noSelftest := fl.Bool("no-selftest", false, "skip the must-fail corpus (used by the corpus run itself)")
 	fl.Parse(args)
 	if *tier == "" {
 		*tier = os.Getenv("VERIF_TIER")
@@ -440,6 +442,18 @@ func cmdCheck(args []string) {
 		bSamples = append(bSamples, fs...)
 		bRules = append(bRules, "frame scan: every store / map update / append / copy / delete in the functions reachable from Parse*, Lex*, String, Next, applyAction and ebnf.Parse*; discharged when the target is allocated in the function or is per-call state")
 	}
+	// thorough tier: the must-fail corpus of this property (seeded changes applied to a scratch copy of /repo)
+	if *tier == "thorough" && !*noSelftest {
+		st := runSelftest(*repo, *verif, *prop)
+		if len(st) > 0 {
+			cov["must_fail_corpus"] = st
+			for _, e := range st {
+				if !e.Caught {
+					fmt.Printf("SELFTEST-MISS property=%s seed=%s (the check did not flag a change known to break the property; this is a weakness of the check, not a violation found in /repo)\n", *prop, e.Seed)
+				}
+			}
+		}
+	}
 	if *level != "proof" {
 		cov["explanation"] = "contract obligations discharged by SMT for the functions listed (if any) plus bounded stand-ins; see level_note in MANIFEST.json"
 		cov["evaluations"] = bEvals
@@ -471,3 +485,65 @@ type counterexample struct {
 
 // findCounterexample is filled in by replay.go (model extraction + replay on the real code).
 var findCounterexample = func(eng *Engine, o *Obligation, smtDir string) *counterexample { return nil }
+
+type selftestEntry struct {
+	Seed       string `json:"seed"`
+	Caught     bool   `json:"caught"`
+	Violations int    `json:"violation_lines"`
+	Note       string `json:"note,omitempty"`
+}
+
+// runSelftest applies each seeded change of the property to a scratch copy of the repository (never to /repo),
+// runs the quick check of the property on the copy and records whether it reports a violation.
+func runSelftest(repo, verif, prop string) []selftestEntry {
+	dirs, _ := filepath.Glob(filepath.Join(verif, "seeded", prop+"_*"))
+	sort.Strings(dirs)
+	var out []selftestEntry
+	for _, d := range dirs {
+		e := selftestEntry{Seed: filepath.Base(d)}
+		tmp, err := os.MkdirTemp("", "vcgo-selftest")
+		if err != nil {
+			continue
+		}
+		scratch := filepath.Join(tmp, "repo")
+		cp := exec.Command("rsync", "-a", "--exclude", ".git", "--exclude", "cmd/participle/participle", repo+"/", scratch+"/")
+		if err := cp.Run(); err != nil {
+			e.Note = "could not copy the repository: " + err.Error()
+			out = append(out, e)
+			os.RemoveAll(tmp)
+			continue
+		}
+		ap := exec.Command("patch", "-p1", "-s", "-i", filepath.Join(d, "patch.diff"))
+		ap.Dir = scratch
+		if o, err := ap.CombinedOutput(); err != nil {
+			e.Note = "the seeded change no longer applies to the current tree: " + firstLine(string(o))
+			out = append(out, e)
+			os.RemoveAll(tmp)
+			continue
+		}
+		vtmp := filepath.Join(tmp, "verif")
+		os.MkdirAll(filepath.Join(vtmp, "evidence"), 0o755)
+		for _, sub := range []string{"stubs", "bounded", "known_findings.json"} {
+			exec.Command("cp", "-r", filepath.Join(verif, sub), filepath.Join(vtmp, sub)).Run()
+		}
+		self, _ := os.Executable()
+		ck := exec.Command(self, "check", "-repo", scratch, "-verif", vtmp, "-prop", prop, "-tier", "quick", "-no-selftest")
+		ob, _ := ck.CombinedOutput()
+		e.Violations = strings.Count(string(ob), "\nVIOLATION ") + map[bool]int{true: 1, false: 0}[strings.HasPrefix(string(ob), "VIOLATION ")]
+		e.Caught = e.Violations > 0
+		if !e.Caught {
+			e.Note = firstLine(lastLines(string(ob), 1))
+		}
+		out = append(out, e)
+		os.RemoveAll(tmp)
+	}
+	return out
+}
+
+func lastLines(s string, n int) string {
+	ls := strings.Split(strings.TrimSpace(s), "\n")
+	if len(ls) > n {
+		ls = ls[len(ls)-n:]
+	}
+	return strings.Join(ls, "\n")
+}
